@@ -33,6 +33,9 @@ type TransSpec struct {
 	Globals    []string // package-level variables treated as explicit state: read -> extra parameter, written -> extra result
 	WrapSigned bool     // int8/16/32/64 wrap around (swrap N) instead of being unbounded; `int` stays unbounded
 	Frags      []FragSpec
+	InPlace    bool     // [ext:T07] byte-buffer code: slice parameters written in place are handed back, bytestring type parameters, package-level tables, range over a slice written in place (gen/trans_ext07.go)
+	Std        []string // [ext:T07] standard-library functions translated through their models in Lib/GoSemStd.v (gen/trans_ext07.go)
+	Identity   []string // [ext:T07] functions of the package translated as the identity on byte lists (unsafe string <-> []byte casts)
 }
 
 type unsupported struct{ msg string }
@@ -114,6 +117,7 @@ type funcInfo struct {
 	greads, gwrites map[*globalInfo]bool // package-level state read / written (directly or through calls)
 	ignoredRecv     bool                 // a receiver of an untranslatable type that the body never mentions
 	frag            *fragInfo            // a loop fragment of a function instead of a whole function
+	outs07          []int                // [ext:T07] indices of the slice parameters written in place: their new contents are returned
 }
 
 type Translator struct {
@@ -127,12 +131,16 @@ type Translator struct {
 	global  map[string]bool // Coq names that locals must not shadow
 	seq     *seqState       // [seq] sequential reading of atomics, places, timed tails (trans_seq.go)
 	ext20                   // [ext:T20] state of gen/trans_ext20.go
+	ext07                   // [ext:T07] state of gen/trans_ext07.go
 }
 
 type stubImporter struct{}
 
 func (stubImporter) Import(path string) (*types.Package, error) {
 	if p := seqStubPackage(path); p != nil { // [seq] sync/atomic, runtime, time: typed stubs
+		return p, nil
+	}
+	if p := stubPackage07(path); p != nil { // [ext:T07] typez.StrOrBytes, strconv.AppendUint, unicode/utf8, unicode/utf16: typed stubs
 		return p, nil
 	}
 	p := types.NewPackage(path, filepath.Base(path))
@@ -196,6 +204,9 @@ func (t *Translator) typeOf(ty types.Type, n ast.Node) gtype {
 			return gtype{k: kSlice, isArr: true, arr: x.Len()}
 		}
 	case *types.TypeParam:
+		if g, ok := t.typeParam07(x); ok { // [ext:T07] T constrained to ~string | ~[]byte: a byte list
+			return g
+		}
 		return gtype{k: kElem}
 	case *types.Slice:
 		e := t.typeOf(x.Elem(), n)
@@ -291,6 +302,7 @@ func Translate(repo string, spec TransSpec) (out string, err error) {
 	}
 	t.seqInit(spec, tpkg, p.Files) // [seq]
 	t.setup20(p, tpkg, spec)       // [ext:T20]
+	t.setup07(spec)                // [ext:T07]
 	for _, f := range p.Files {
 		for _, d := range f.Decls {
 			if fd, ok := d.(*ast.FuncDecl); ok && fd.Body != nil {
@@ -374,6 +386,7 @@ func Translate(repo string, spec TransSpec) (out string, err error) {
 		fmt.Fprintf(&fb, "#[export] Hint Unfold %s : go2v.\n", fi.name)
 	}
 	sb.WriteString(t.consts20())
+	sb.WriteString(t.consts07()) // [ext:T07] package-level tables
 	sb.WriteString(fb.String())
 	return sb.String(), nil
 }
@@ -530,6 +543,7 @@ func (t *Translator) assigned(n ast.Node, set map[types.Object]bool) {
 	}
 	ast.Inspect(n, func(m ast.Node) bool {
 		t.seqAssigned(m, set) // [seq] writes through h := &s[i] and atomic stores
+		t.assigned07(m, set)  // [ext:T07] slice arguments written in place by the callee
 		switch x := m.(type) {
 		case *ast.AssignStmt:
 			for _, l := range x.Lhs {
@@ -630,6 +644,9 @@ func (t *Translator) analyse() {
 				}
 			}
 			if t.globals20(fi) { // [ext:T20]
+				changed = true
+			}
+			if t.outParams07(fi) { // [ext:T07]
 				changed = true
 			}
 		}
